@@ -53,6 +53,42 @@ CHECKS = {
   "technique": "Lean 4 model + twin-run differential correspondence; no-op theorems (in progress)",
   "design_ref": "DESIGN.md section 6 / C15",
  },
+ "C07": {
+  "text": 'Executable Lean model of the server and client handshake state machines; every datagram and event of real Client/Server objects behind harness relays is compared with the model under loss/dup/reorder and forged handshake frames (random, stale, replayed, off-by-one nonces, wrong version, incompatible sizes, also at established connections). Oracle: server Connect only after a delivered ACK carrying a nonce the server issued in answer to a delivered SYN; client Connect / ACK only for SYN-ACKs echoing its own nonce; first data frame ids start at the nonces; refusals carry the right code.',
+  "note": 'Partial until the endpoint theorems land (in progress): the claim rests on exact correspondence of model and real Client/Server plus the implementation-side oracle. Trusted: relay harness, loopback UDP ordering.',
+  "technique": 'Lean 4 model of Server/Client step functions (half connection abstract) + differential correspondence over real sockets + oracle; theorems in progress',
+  "design_ref": "DESIGN.md section 6 / C07",
+ },
+ "C08": {
+  "text": "Same model; monitor automaton (Connect? Receive* (Disconnect|Error)?, nothing afterwards, new Connect only after the terminal event / a new attempt, drop() as terminal marker) evaluated on both endpoints' event iterators under all interleavings of send/disconnect/disconnect_now/drop with faults and timers, incl. simultaneous disconnects.",
+  "note": 'Partial until the endpoint theorems land (in progress): the claim rests on exact correspondence of model and real Client/Server plus the implementation-side oracle. Trusted: relay harness, loopback UDP ordering.',
+  "technique": 'Lean 4 model of Server/Client step functions (half connection abstract) + differential correspondence over real sockets + oracle; theorems in progress',
+  "design_ref": "DESIGN.md section 6 / C08",
+ },
+ "C09": {
+  "text": "Same model; oracle: Reliable packets submitted before disconnect() are delivered before the peer's Disconnect; from the first transmission of the disconnect request both sides reach a terminal event within 22 s; directed search with a lone (possibly empty) Reliable packet in flight whose frame is lost.",
+  "note": 'Partial until the endpoint theorems land (in progress): the claim rests on exact correspondence of model and real Client/Server plus the implementation-side oracle. Trusted: relay harness, loopback UDP ordering.',
+  "technique": 'Lean 4 model of Server/Client step functions (half connection abstract) + differential correspondence over real sockets + oracle; theorems in progress',
+  "design_ref": "DESIGN.md section 6 / C09",
+ },
+ "C10": {
+  "text": 'Same model under the virtual clock; oracle: Error(Timeout) only after >= active_timeout of silence (found and repaired F9), emitted within one step after that much silence, handshake timeout after exactly 11 SYNs and >= 22 s, idle keepalive connections never time out when max(K,RTO,2 s)+2L+2 step < T.',
+  "note": 'Partial until the endpoint theorems land (in progress): the claim rests on exact correspondence of model and real Client/Server plus the implementation-side oracle. Trusted: relay harness, loopback UDP ordering.',
+  "technique": 'Lean 4 model of Server/Client step functions (half connection abstract) + differential correspondence over real sockets + oracle; theorems in progress',
+  "design_ref": "DESIGN.md section 6 / C10",
+ },
+ "C17": {
+  "text": 'Same model; servers with limits 1..8 against up to 8 clients with overlapping handshakes; oracle: established connections <= max_active at all times (found and repaired F10).',
+  "note": 'Partial until the endpoint theorems land (in progress): the claim rests on exact correspondence of model and real Client/Server plus the implementation-side oracle. Trusted: relay harness, loopback UDP ordering.',
+  "technique": 'Lean 4 model of Server/Client step functions (half connection abstract) + differential correspondence over real sockets + oracle; theorems in progress',
+  "design_ref": "DESIGN.md section 6 / C17",
+ },
+ "C18": {
+  "text": 'Same model; raw peers send valid/repeated/undersized/oversized/wrong-version/refused SYNs and stray frames; per address bytes sent by the server stay strictly below bytes received until the handshake completes.',
+  "note": 'Partial until the endpoint theorems land (in progress): the claim rests on exact correspondence of model and real Client/Server plus the implementation-side oracle. Trusted: relay harness, loopback UDP ordering.',
+  "technique": 'Lean 4 model of Server/Client step functions (half connection abstract) + differential correspondence over real sockets + oracle; theorems in progress',
+  "design_ref": "DESIGN.md section 6 / C18",
+ },
 }
 
 NOT_YET = "check not built yet (work in progress; see DESIGN.md section 11 for the order)"
